@@ -443,14 +443,19 @@ def pool_wrappers_part(run, pid, methods=None):
                 sc["steps"].append({"op": "wait", "id": rid})
         scs.append(sc)
         sid += 1
-    # ... and OVERLAPPING calls on a (1,3) pool (one initial instance, two additional ones): three requests held inside their first
+    # ... and OVERLAPPING calls on a (1,3) pool (one initial instance, two additional ones): a quiet call run to its end, then three requests held inside their first
     # rule at once, released in reverse order — each map must be the caller's own (every value carries the request's id)
     for order in orders[:4]:
         for meth in [m for m in ("Execute", "ExecuteConcurrent", "ExecuteNSortMConcurrent", "ExecuteSelectedRules", "ExecuteDAGModel", "ExecuteMixModel") if m in methods][:3]:
             rules = poolfam.rules_v(1, names=order, kinds={"pd": "fail", "ps": "stop"})
             sc = {"id": sid, "min": 1, "max": 3, "model": 1, "rules": rules, "steps": []}
-            rid = sid * 1000
+            rid = sid * 1000 + 500
             held = []
+            # a quiet call first, run to its end and handed back (the free lists have been taken from and given to once) ...
+            warm = poolfam.req_step(rid, meth, list(order), hold_at="", flag=True, b=True, n=1, m=len(order) - 1)
+            warm["layers"] = [list(order[:1]), list(order[1:])]
+            sc["steps"] += [warm, {"op": "wait", "id": rid}, {"op": "sleep", "wait_ms": 30}]
+            rid = sid * 1000
             for _ in range(3):
                 rid += 1
                 held.append(rid)
